@@ -223,6 +223,21 @@ Ast(x) ==
 \* Query::next: one result per root-level node
 TreeResults(sib) == LET xs == IF TokensAreResults THEN sib ELSE NodesOf(sib) IN TLCEval([j \in 1..Len(xs) |-> Ast(xs[j])])
 
+\* the phrases (SENTENCE / WORD nodes, as token ranges) in the order eval() looks them up: in an OPERATION the first
+\* operand is delayed until the first operator has evaluated its right operand (a cast evaluates only the left one)
+RECURSIVE LookupOrder(_), OpOrder(_, _, _), SeqOrder(_, _)
+SeqOrder(ns, j) == IF j > Len(ns) THEN <<>> ELSE LookupOrder(ns[j]) \o SeqOrder(ns, j + 1)
+OpOrder(ns, j, delayed) ==
+  IF j + 1 > Len(ns) THEN (IF delayed THEN LookupOrder(ns[1]) ELSE <<>>)
+  ELSE IF NodeOp(ns[j].k) = "to" THEN (IF delayed THEN LookupOrder(ns[1]) ELSE <<>>) \o OpOrder(ns, j + 2, FALSE)
+  ELSE LookupOrder(ns[j + 1]) \o (IF delayed THEN LookupOrder(ns[1]) ELSE <<>>) \o OpOrder(ns, j + 2, FALSE)
+LookupOrder(x) ==
+  IF x.leaf THEN <<>>
+  ELSE CASE x.k = "OPERATION" -> LET ns == NodesOf(x.ch) IN IF ns = <<>> THEN <<>> ELSE OpOrder(ns, 2, TRUE)
+         [] x.k \in {"SENTENCE", "WORD"} -> <<Range(x)>>
+         [] x.k = "FN_CALL" -> LET ns == NodesOf(x.ch) IN IF Len(ns) >= 2 THEN SeqOrder(NodesOf(ns[2].ch), 1) ELSE <<>>
+         [] OTHER -> <<>>
+
 \* ---------------------------------------------------------------- properties of one token string
 Lossless(ks) == LET p == ParseRoot(ks) IN ~p.stuck /\ LeavesSeq(p.sib, 1) = [i \in 1..Len(ks) |-> i]
 \* brace groups `{ .. }` are outside the documented grammar (Grammar.tla does not read them)
